@@ -6,6 +6,7 @@ import Flowjaxv.Proofs.NetLogDet
 import Flowjaxv.Proofs.BnafLd
 import Flowjaxv.Proofs.JaxTransforms
 import Flowjaxv.Proofs.BnafGen
+import Flowjaxv.Proofs.TriangularGen
 /-!
 # C02 — the log-determinant is the log-determinant
 
@@ -783,5 +784,41 @@ theorem gen_bnaf_logdet_instance (v : Fin 2 → ℝ) :
 
 end BnafGen
 /-! ## ===== END BnafGen ===== -/
+section TriangularGen
+/-! ## TriangularAffine REGENERATED (`Gen/TriangularGen.lean`): the log-determinant of the generated methods -/
+
+/-- `triangular_ld` on the GENERATED `transform_and_log_det` / `inverse_and_log_det`: the forward map is differentiable everywhere
+with Jacobian `A`, `det A = ∏ Aᵢᵢ ≠ 0`, and the returned `jnp.log(jnp.abs(jnp.diag(A))).sum()` is `log |det A|` — every `n`, both
+orientations, diagonal of either sign. -/
+theorem gen_triangular_ld {C : Type} {n : ℕ} {t : TriangularAffine ℝ} (h : TriPf.TriWF n (TriGenPf.toModel t)) :
+    (TriGen.toBij t : Bij (List ℝ) C ℝ).LdCorrectVecWith n Set.univ (fun _ => TriPf.toMat n t.triangular) := by
+  rw [TriGenPf.gen_toBij_eq]; exact TriPf.triangular_ld h
+
+/-- the determinant is the product of the diagonal the generated log-det reads (`TriPrims.diag` = entries `Aᵢᵢ`) -/
+theorem gen_triangular_det {n : ℕ} {t : TriangularAffine ℝ} (h : TriPf.TriWF n (TriGenPf.toModel t)) :
+    (TriPf.toMat n t.triangular).det = ∏ i, TriPf.toMat n t.triangular i i ∧
+      (∀ i : Fin n, TriPf.toMat n t.triangular i i ≠ 0) ∧
+      (t.transform_and_log_det (List.replicate n 0)).2 = ∑ i : Fin n, Real.log |TriPf.toMat n t.triangular i i| := by
+  refine ⟨h.det.1, h.det.2, ?_⟩
+  rw [TriGenPf.gen_transform_and_log_det_eq]
+  exact TriPf.logDet_eq h.sq.1
+
+theorem gen_triangular_ld_antisym {C : Type} (t : TriangularAffine ℝ) (D : Set (List ℝ)) :
+    (TriGen.toBij t : Bij (List ℝ) C ℝ).LdAntisym D := by
+  rw [TriGenPf.gen_toBij_eq]; exact TriPf.triangular_ld_antisym _ D
+
+/-- every accepted constructor call (generated `__init__`, then `unwrap`): log-det correct on all of `ℝⁿ` -/
+theorem gen_triangular_init_ld {C : Type} {n : ℕ} (loc : List ℝ) (m : List (List ℝ)) (lower : Bool)
+    (hsq : TriPf.Square n m) {s : TriangularAffineStored ℝ} (h : TriangularAffine.init loc (.mat m) lower = .ok s) :
+    (TriGen.toBij (TriGen.unwrap s) : Bij (List ℝ) C ℝ).LdCorrectVec n Set.univ :=
+  (gen_triangular_ld (TriGenPf.gen_init_wf loc m lower hsq h)).ldCorrectVec
+
+/-- non-vacuity: `log|det|` of the generated log-det on `[[2, 1], [0, -3]]` (upper) is `log 2 + log 3` -/
+theorem gen_triangular_ld_instance :
+    (({ triangular := [[2, 1], [0, -3]], loc := [1, 5], lower := false } : TriangularAffine ℝ).transform_and_log_det [0, 0]).2
+      = Real.log 2 + Real.log 3 := by
+  simp [TriangularAffine.transform_and_log_det, TriPrims.diag, RealInst.jabs_eq, RealInst.log_eq, Jnp.sum]
+
+end TriangularGen
 
 end C02
